@@ -54,6 +54,17 @@ def enumerate_states(tier):
                 key = "t_" + ("_".join("%s%d" % (d[:3], dev[d]) for d in ORDER if d in dev) or "default")
                 states.append(dict(key=key, dev=dev))
                 transitions += n
+    if k < 3:
+        # three-way interactions around a PROVIDED method, in the quick tier too: the rewritten async body and the delegation-target trait
+        # (which drops the body) each build the method a second time
+        seen = {s["key"] for s in states}
+        for ma in range(1, len(DIMS["mattrs"])):
+            for third in [("async", 1), ("async", 2), ("pattr", 1)] + [("opts", i) for i in range(1, len(DIMS["opts"]))]:
+                dev = {"mattrs": ma, "body": 1, third[0]: third[1]}
+                key = "t_" + "_".join("%s%d" % (d[:3], dev[d]) for d in ORDER if d in dev)
+                if key not in seen:
+                    states.append(dict(key=key, dev=dev))
+                    transitions += 3
     return states, max(transitions, 1), dict(deviations=k, dimensions={d: len(v) for d, v in DIMS.items()})
 
 
